@@ -22,6 +22,11 @@ pub struct ManyTx {
     pub tcp: bool,
     /// ids differ only in their high 32 bits when set (else in the low bits)
     pub high_bits: bool,
+    /// when > 0: after the first half has been sent, every `cancel_every`-th of them is cancelled
+    /// (`cancel()`), and only then is the second half sent: a cancelled transaction is still owed its
+    /// TransactionCancelled report, however full the table is
+    #[serde(default)]
+    pub cancel_every: u32,
 }
 
 fn many_tx(c: &ManyTx, st: &mut Stats) -> TestResult {
@@ -32,6 +37,14 @@ fn many_tx(c: &ManyTx, st: &mut Stats) -> TestResult {
     let at = |ms: u64| t0 + Duration::from_millis(ms);
     let id_of = |i: u32| -> u128 { if c.high_bits { ((i as u128) << 64) | 0x5eed } else { 0x7000_0000_0000u128 + i as u128 } };
     for i in 0..c.n {
+        if c.cancel_every > 0 && i == c.n / 2 {
+            for j in (0..i).step_by(c.cancel_every as usize) {
+                match agent.mut_request_transaction(TransactionId::from(id_of(j))) {
+                    Some(mut r) => r.cancel(),
+                    None => return Err(Fail::new("c05-lost", format!("request #{} of {} is not outstanding when it is to be cancelled", j, c.n))),
+                }
+            }
+        }
         let b = Message::builder(MessageType::from_class_method(MessageClass::Request, 1), TransactionId::from(id_of(i)));
         agent
             .send(b, agentsim::peer((i % 3) as u8), at(0))
@@ -76,7 +89,8 @@ fn many_tx(c: &ManyTx, st: &mut Stats) -> TestResult {
     }
     for i in 0..c.n {
         let id = id_of(i);
-        let want_sends = if c.tcp { 0 } else { 1 };
+        let cancelled = c.cancel_every > 0 && i < c.n / 2 && i % c.cancel_every == 0;
+        let want_sends = if c.tcp || cancelled { 0 } else { 1 };
         ensure!(
             sends.get(&id).copied().unwrap_or(0) == want_sends && done.get(&id).copied().unwrap_or(0) == 1,
             "c05-exactly-once",
@@ -199,9 +213,10 @@ pub fn run(ctx: &Ctx) -> EvidenceMeta {
     drive(ctx, &PROP, 25_000, 800_000);
     // capacity: hundreds to thousands of concurrent transactions, ids differing in low or only in high bits
     let mut many = vec![];
-    for n in if ctx.quick() { vec![17u32, 300, 1_100] } else { vec![17, 300, 1_100, 4_200] } {
+    for n in if ctx.quick() { vec![17u32, 130, 300, 1_100] } else { vec![17, 130, 300, 1_100, 4_200, 66_000] } {
         for (tcp, high_bits) in [(false, false), (true, true), (false, true)] {
-            many.push(ManyTx { n, tcp, high_bits });
+            many.push(ManyTx { n, tcp, high_bits, cancel_every: 0 });
+            many.push(ManyTx { n, tcp, high_bits, cancel_every: 1 + n / 7 });
         }
     }
     ctx.enumerate("many-transactions", &many, many_tx);
